@@ -275,6 +275,15 @@ func mappingSweep(r *vk.Run) {
 	r.Add("mapping_sweep_cases", n)
 }
 
+// budget is the wall-clock allowance of one worker process: generous multiples of the measured
+// run time; running out of it yields exhaustive:false, never a violation.
+func budget(r *vk.Run) time.Duration {
+	if r.Thorough() {
+		return 25 * time.Minute
+	}
+	return 4 * time.Minute
+}
+
 func main() {
 	r := vk.Start("C11", "model_checking")
 	scenarios := []e1.Scenario{}
@@ -289,7 +298,10 @@ func main() {
 			scenarios = append(scenarios, scenario(fmt.Sprintf("discovery/n=4/times=0.1T,0.5T,0.5T,T-e/bcast=%d", port), 4, []time.Duration{T / 10, T / 2, T / 2, T - eps}, port, 1))
 		}
 	}
-	e1.RunAll(r, scenarios, 0)
+	if r.Thorough() {
+		e1.PerScenario = 6 * time.Minute
+	}
+	e1.RunAll(r, scenarios, budget(r))
 	if r.Worker == "" && r.Replay == "" {
 		e1.Conformance(r)
 	}
